@@ -158,6 +158,85 @@ fn for_each_byte_fault(src: &str, more: bool, mut f: impl FnMut(&'static str, St
     }
 }
 
+/// Two more single faults around a base document:
+/// * `same-identifier`: every identifier of the document becomes the same identifier (every
+///   pair of names collides: duplicate definitions of every mix of kinds);
+/// * `insert-scalar-after-non-ascii`: the scalar insertions again, in the document preceded by
+///   a comment of multi-byte characters (offsets counted in characters and in bytes then differ).
+fn for_each_collision_fault(src: &str, mut f: impl FnMut(&'static str, String)) {
+    if let Ok((toks, _)) = reference::tokenize(src) {
+        for name in ["x", "%use"] {
+            let mut t = String::with_capacity(src.len());
+            let mut last = 0;
+            let mut ids = 0;
+            for tok in &toks {
+                if tok.kind == reference::Kind::Id {
+                    t.push_str(&src[last..tok.start]);
+                    t.push_str(name);
+                    last = tok.end;
+                    ids += 1;
+                }
+            }
+            t.push_str(&src[last..]);
+            if ids >= 2 {
+                f("same-identifier", t);
+            }
+        }
+    }
+    let prefixed = format!("// \u{e9}\u{20ac}\u{1f600}\n{src}");
+    let mut cuts: Vec<usize> = match reference::tokenize(&prefixed) {
+        Ok((toks, _)) => toks.iter().flat_map(|t| [t.start, t.end]).collect(),
+        Err(_) => vec![],
+    };
+    cuts.push(prefixed.len());
+    cuts.sort_unstable();
+    cuts.dedup();
+    for i in cuts {
+        for c in INSERT {
+            let mut t = String::with_capacity(prefixed.len() + 4);
+            t.push_str(&prefixed[..i]);
+            t.push(c);
+            t.push_str(&prefixed[i..]);
+            f("insert-scalar-after-non-ascii", t);
+        }
+    }
+}
+
+/// Every ordered pair of items that define the SAME name `x`, in an interface, in a world and
+/// at the top level: each mix of kinds must be accepted or rejected with a diagnostic.
+pub fn name_collision_documents() -> Vec<String> {
+    let pre = "package a:b;\ninterface i0 { type x = u8; }\n";
+    let iface_items = [
+        "x: func();", "type x = u32;", "record x { a: u8 }", "variant x { a }", "enum x { a }", "flags x { a }", "resource x;",
+        "resource x { constructor(); x: func(); }", "use i0.{x};", "use i0.{x as y}; y: func();",
+    ];
+    let world_items = [
+        "import x: func();", "export x: func();", "type x = u32;", "record x { a: u8 }", "resource x;", "use i0.{x};",
+        "import x: interface { x: func(); };", "export x: interface { type x = u8; };", "import i0;", "include w0;",
+    ];
+    let top_items = [
+        "import x: func();", "type x = u32;", "record x { a: u8 }", "resource x;", "interface x { x: func(); }", "world x { import x: func(); }",
+        "let x = new c:d { ... };", "export x;", "import y as x: func();", "import x: i0;",
+    ];
+    let mut out = Vec::new();
+    for a in iface_items {
+        for b in iface_items {
+            out.push(format!("{pre}interface i {{ {a} {b} }}\n"));
+        }
+    }
+    for a in world_items {
+        for b in world_items {
+            out.push(format!("{pre}world w0 {{ import x: func(); }}\nworld w {{ {a} {b} }}\n"));
+        }
+    }
+    for a in top_items {
+        for b in top_items {
+            out.push(format!("{pre}{a}\n{b}\n"));
+        }
+    }
+    out
+}
+
 // ---------------------------------------------------------------- nesting families (supervised)
 
 pub const FAMILIES: [&str; 11] = [
@@ -396,6 +475,7 @@ pub fn run(args: &[String]) -> ! {
             for b in chunk {
                 c12::family(b, &subs, false, scope, &mut tight, |kind, text| st.record(kind, &text));
                 for_each_byte_fault(&corpus::join(&b.toks), more, |kind, text| st.record(kind, &text));
+                for_each_collision_fault(&corpus::join(&b.toks), |kind, text| st.record(kind, &text));
             }
             st
         })
@@ -426,6 +506,9 @@ pub fn run(args: &[String]) -> ! {
     }
     for (_, text) in corpus::codepoint_sweep() {
         st.record("code-point", &text);
+    }
+    for text in name_collision_documents() {
+        st.record("name-collision-pair", &text);
     }
 
     // nesting families, supervised (run in parallel, merged in (family, depth) order)
